@@ -183,6 +183,191 @@ func extractIgnore(repo string) ignoreFacts {
 	return out
 }
 
+// ---------- sourceaddrs facts ----------
+
+func exprText(e ast.Expr) string {
+	switch v := e.(type) {
+	case *ast.Ident:
+		return v.Name
+	case *ast.SelectorExpr:
+		return exprText(v.X) + "." + v.Sel.Name
+	case *ast.IndexExpr:
+		return exprText(v.X) + "[" + exprText(v.Index) + "]"
+	case *ast.BasicLit:
+		return v.Value
+	}
+	return "?"
+}
+
+// strings compared (== or !=) with an expression whose text is `lhs`, inside node n
+func comparedStrings(n ast.Node, lhs string) []string {
+	var out []string
+	ast.Inspect(n, func(m ast.Node) bool {
+		be, ok := m.(*ast.BinaryExpr)
+		if !ok || (be.Op != token.EQL && be.Op != token.NEQ) {
+			return true
+		}
+		for _, pair := range [][2]ast.Expr{{be.X, be.Y}, {be.Y, be.X}} {
+			if exprText(pair[0]) == lhs {
+				if bl, ok := pair[1].(*ast.BasicLit); ok && bl.Kind == token.STRING {
+					if s, err := strconv.Unquote(bl.Value); err == nil {
+						dup := false
+						for _, o := range out {
+							if o == s {
+								dup = true
+							}
+						}
+						if !dup {
+							out = append(out, s)
+						}
+					}
+				}
+			}
+		}
+		return true
+	})
+	return out
+}
+
+// string literal second arguments of calls pkg.fn(x, "lit") inside n
+func callStringArgs(n ast.Node, fn string) []string {
+	var out []string
+	ast.Inspect(n, func(m ast.Node) bool {
+		ce, ok := m.(*ast.CallExpr)
+		if !ok || len(ce.Args) != 2 {
+			return true
+		}
+		if exprText(ce.Fun) != fn {
+			return true
+		}
+		if bl, ok := ce.Args[1].(*ast.BasicLit); ok && bl.Kind == token.STRING {
+			if s, err := strconv.Unquote(bl.Value); err == nil {
+				dup := false
+				for _, o := range out {
+					if o == s {
+						dup = true
+					}
+				}
+				if !dup {
+					out = append(out, s)
+				}
+			}
+		}
+		return true
+	})
+	return out
+}
+
+func findMethod(f *ast.File, recv, name string) *ast.FuncDecl {
+	for _, d := range f.Decls {
+		fd, ok := d.(*ast.FuncDecl)
+		if !ok || fd.Name.Name != name {
+			continue
+		}
+		if recv == "" && fd.Recv == nil {
+			return fd
+		}
+		if fd.Recv != nil && len(fd.Recv.List) == 1 && exprText(fd.Recv.List[0].Type) == recv {
+			return fd
+		}
+	}
+	return nil
+}
+
+func leanStrList(xs []string) string {
+	var q []string
+	for _, x := range xs {
+		q = append(q, leanStr(x))
+	}
+	return "[" + strings.Join(q, ", ") + "]"
+}
+
+func extractRemote(repo, out string) {
+	ft, _ := parseFile(filepath.Join(repo, "sourceaddrs/source_remote_types.go"))
+	fr, _ := parseFile(filepath.Join(repo, "sourceaddrs/source_remote.go"))
+	p := filepath.Join(out, "Remote.lean")
+	fail := func(why string) {
+		fmt.Println("extract: remote facts not found:", why)
+		if b, err := os.ReadFile(p); err == nil {
+			writeIfChanged(p, strings.Replace(string(b), "def remoteExtracted : Bool := true", "def remoteExtracted : Bool := false", 1))
+		}
+	}
+	if ft == nil || fr == nil {
+		fail("files")
+		return
+	}
+	var types []string
+	ast.Inspect(ft, func(n ast.Node) bool {
+		vs, ok := n.(*ast.ValueSpec)
+		if !ok || len(vs.Names) != 1 || vs.Names[0].Name != "remoteSourceTypes" || len(vs.Values) != 1 {
+			return true
+		}
+		if cl, ok := vs.Values[0].(*ast.CompositeLit); ok {
+			for _, el := range cl.Elts {
+				kv, ok := el.(*ast.KeyValueExpr)
+				if !ok {
+					continue
+				}
+				k, ok1 := kv.Key.(*ast.BasicLit)
+				v, ok2 := kv.Value.(*ast.CompositeLit)
+				if ok1 && ok2 {
+					ks, _ := strconv.Unquote(k.Value)
+					types = append(types, fmt.Sprintf("(%s, %s)", leanStr(ks), leanStr(exprText(v.Type))))
+				}
+			}
+		}
+		return true
+	})
+	git := findMethod(ft, "gitSourceType", "PrepareURL")
+	http := findMethod(ft, "httpSourceType", "PrepareURL")
+	mk := findMethod(fr, "", "MakeRemoteSource")
+	if len(types) == 0 || git == nil || http == nil || mk == nil {
+		fail("declarations")
+		return
+	}
+	gitSchemes := comparedStrings(git, "u.Scheme")
+	gitKeys := comparedStrings(git, "k")
+	archVals := comparedStrings(http, "vs[0]")
+	// the accepted archive values are those compared with != in the rejection test; keep literal order
+	suffixes := callStringArgs(http, "strings.HasSuffix")
+	prefixes := callStringArgs(fr, "strings.HasPrefix")
+	checksUser := false
+	ast.Inspect(mk, func(n ast.Node) bool {
+		if be, ok := n.(*ast.BinaryExpr); ok && be.Op == token.NEQ && exprText(be.X) == "u.User" && exprText(be.Y) == "nil" {
+			checksUser = true
+		}
+		return true
+	})
+	if len(gitSchemes) == 0 || len(gitKeys) == 0 || len(archVals) == 0 || len(suffixes) == 0 || len(prefixes) == 0 {
+		fail("literals")
+		return
+	}
+	content := fmt.Sprintf(`/-! GENERATED by harness/cmd/extract from /repo/sourceaddrs/*.go — do not edit.
+Keys of `+"`remoteSourceTypes`"+` with their implementation type, the schemes and query arguments
+named in the two `+"`PrepareURL`"+` methods, the shorthand host prefixes. -/
+namespace Slug.Generated
+
+def sourceTypes : List (String × String) := [%s]
+
+def gitSchemes : List String := %s
+
+def gitQueryKeys : List String := %s
+
+def httpArchiveValues : List String := %s
+
+def httpSuffixes : List String := %s
+
+def shorthandPrefixes : List String := %s
+
+def makeChecksUser : Bool := %v
+
+def remoteExtracted : Bool := true
+
+end Slug.Generated
+`, strings.Join(types, ", "), leanStrList(gitSchemes), leanStrList(gitKeys), leanStrList(archVals), leanStrList(suffixes), leanStrList(prefixes), checksUser)
+	writeIfChanged(p, content)
+}
+
 func writeIfChanged(path, content string) {
 	old, err := os.ReadFile(path)
 	if err == nil && string(old) == content {
@@ -197,6 +382,7 @@ func main() {
 	flag.Parse()
 	os.MkdirAll(*out, 0755)
 
+	extractRemote(*repo, *out)
 	ig := extractIgnore(*repo)
 	if ig.ok {
 		var esc []string
